@@ -943,7 +943,7 @@ def _judge(w, res):
     # ---- directories at the end (before any shutdown trigger)
     if w.tempdir is not None and w.ended and os.path.exists(w.tempdir):
         tag = "tempdir-left-after-process-end"
-        if "datadir-not-freshly-created" in w.labels:
+        if "datadir-path-of-an-earlier-launch" in w.labels or "datadir-not-freshly-created" in w.labels:
             # launch() did not make a fresh directory although the caller supplied none (a re-used TorConfig)
             tag = "stale-datadir-adopted-and-left-after-process-end"
         elif w.cfg.get("tmp_symlink"):
@@ -1180,6 +1180,9 @@ def _run_chain(case, res, box, logs):
             res.label("launch-refused")
             continue
         _check_caller_dir(w, res, "right after launch() returned")
+        if w.tempdir is not None and [x for x in worlds[:-1] if x.tempdir == w.tempdir]:
+            # the caller supplied nothing, yet this Tor is sent to the directory of an earlier launch
+            w.labels.add("datadir-path-of-an-earlier-launch")
 
         def step(a, w=w):
             i = len(flat)
@@ -1189,7 +1192,8 @@ def _run_chain(case, res, box, logs):
             _scan_log([w], res, logs, logstate, i, a)
             _step_checks(w, res, i, a)
             for prev in worlds[:-1]:
-                _check_caller_dir(prev, res, "after action %d %r of a later launch" % (i, a))
+                if prev.transport is not None:      # a refused launch never got (or made) its directory
+                    _check_caller_dir(prev, res, "after action %d %r of a later launch" % (i, a))
 
         for a in sub["sched"]:
             step(list(a))
@@ -1209,15 +1213,15 @@ def _run_chain(case, res, box, logs):
             res.bad("tempdir-left-after-process-end",
                     "%stemporary DataDirectory %s exists at the end of the chain" % (w.name, os.path.basename(w.tempdir)))
     reactor.fire_triggers("shutdown")
-    for w in worlds:
-        _check_caller_dir(w, res, "after the reactor's shutdown triggers ran")
     spawned = [w for w in worlds if w.transport is not None]
+    for w in spawned:
+        _check_caller_dir(w, res, "after the reactor's shutdown triggers ran")
     res.label("chain:%d-launches-one-config" % len(case["launches"]))
     if len(spawned) >= 2:
         res.label("chain:two-or-more-spawned")
         if [w for w in spawned[1:] if w.tempdir]:
             res.label("chain:later-launch-with-temp-datadir")
-        if [w for w in spawned[1:] if "datadir-not-freshly-created" in w.labels]:
+        if [w for w in spawned[1:] if "datadir-path-of-an-earlier-launch" in w.labels]:
             res.label("chain:later-launch-reuses-a-directory-name")
     res.nontrivial = bool(len(spawned) >= 2 and any(nts))
 
